@@ -352,6 +352,8 @@ class Env:
         self.trace, self.pres_seen, self.notes, self.wrapper_ops = [], [], [], []
         src = self.state(script["input"], skip=script["skip"][script["input"]])
         kw = dict(safe=script["safe"], keep_imports=script["keep"], preserve=frozenset(script["p0"]))
+        if script["input"] % 2 == 0:        # rely on the defaults of the public signature
+            kw = {k: v for k, v in kw.items() if v not in (False, frozenset())}
         self.mods["core"].parse.cache_clear()
         try:
             with common.quiet():
@@ -833,9 +835,13 @@ def format_file_rows(mods, wd: Path) -> tuple[list[dict], list[str]]:
                 def fake_valid(source):
                     return vold if source == old_text else vnew if source == new_text else False
                 main.format_code, core.is_valid_python = fake_fc, fake_valid
+                # call variants: Path / str / relative str argument; default or explicit preserve and safe
+                variant = (changed * 4 + vnew * 2 + vold) % 4
+                arg = [f, str(f), os.path.relpath(f), f][variant]
+                call_kw = [{}, {}, {"safe": True}, {"preserve": frozenset({"keepme"}), "safe": False}][variant]
                 try:
                     with common.quiet():
-                        ret = main.format_file(f)
+                        ret = main.format_file(arg, **call_kw)
                     err = None
                 except Exception as e:  # noqa
                     ret, err = None, f"{type(e).__name__}: {e}"
@@ -846,7 +852,10 @@ def format_file_rows(mods, wd: Path) -> tuple[list[dict], list[str]]:
                 row = {"file": name, "changed": changed, "valid_new": vnew, "valid_old": vold,
                        "returned": ret, "content_is_new": after_text == new_text, "touched": touched,
                        "keep_imports_seen": seen.get("keep_imports"), "error": err,
-                       "content_ok": after_text in (old_text, new_text), "read_ok": seen.get("source") == old_text}
+                       "content_ok": after_text in (old_text, new_text), "read_ok": seen.get("source") == old_text,
+                       "options_ok": (seen.get("safe"), frozenset(seen.get("preserve", ()))) ==
+                                     (call_kw.get("safe", False), frozenset(call_kw.get("preserve", ()))),
+                       "call": {"arg": type(arg).__name__ + (":relative" if variant == 2 else ""), **{k: str(v) for k, v in call_kw.items()}}}
                 rows.append(row)
                 coq.append(f"(mkFileCase {gbool(changed)} {gbool(vnew)} {gbool(vold)} "
                            f"{gbool(after_text == new_text)} {gbool(bool(ret))})")
@@ -867,6 +876,8 @@ def format_file_row_problems(rows) -> list[dict]:
             probs.append("mtime and content disagree")
         if r["touched"] and not r["content_is_new"]:
             probs.append("file rewritten although nothing was to be written")
+        if not r.get("options_ok", True):
+            probs.append("safe / preserve are not handed to format_code as given (defaults: safe=False, preserve empty)")
         if r["keep_imports_seen"] != (r["file"] == "__init__.py"):
             probs.append("keep_imports is not (name == '__init__.py')")
         # the property's own oracle (C03 statement)
@@ -987,7 +998,8 @@ def run_format_files(mods, wd: Path, case, real_pool=False) -> dict:
         main.mp = types.SimpleNamespace(Pool=TracingPool, cpu_count=saved[1].cpu_count)
     try:
         with common.quiet():
-            ret = main.format_files([paths[f] for f in sorted(paths, reverse=True)], max_passes=mp, n_cores=2)
+            kw = {} if mp == 1 else {"max_passes": mp}      # max_passes=1 is the default of the signature
+            ret = main.format_files([paths[f] for f in sorted(paths, reverse=True)], n_cores=2, **kw)
         err = None
     except Exception as e:  # noqa
         ret, err = None, f"{type(e).__name__}: {e}"
@@ -1080,7 +1092,11 @@ def guard_cases(mods, tier: str, only_all_valid: bool = False, n: int = 3):
 
     core.is_valid_python = fake_valid
     processing._substitute_original_strings = fake_restore
-    processing._substitute_original_fstrings = lambda o, n: n
+    def fake_restore_f(original, new):      # second restoration stage: a fixed rotation on odd-numbered texts
+        if script.get("fstage") and new in texts and texts.index(new) % 2 == 1:
+            return texts[(texts.index(new) + 1) % len(texts)]
+        return new
+    processing._substitute_original_fstrings = fake_restore_f
     try:
         for cand in itertools.product(range(n), repeat=n):
             def rule(source, _c=cand):
@@ -1091,10 +1107,16 @@ def guard_cases(mods, tier: str, only_all_valid: bool = False, n: int = 3):
             for valid in itertools.product((False, True), repeat=n):
                 if only_all_valid and not all(valid):
                     continue
-                for rname, rt in restores.items():
+                for rname, rt in list(restores.items()) + ([("id+f", restores["id"]), ("rot+f", restores["rot"])]
+                                                             if not only_all_valid else []):
                     if only_all_valid and rname != "id":
                         continue
-                    script.update(valid=valid, restore=rt)
+                    fstage = rname.endswith("+f")
+                    if fstage:      # what the model sees is the composition fstrings . strings
+                        rt = [[(j + 1) % n if j % 2 == 1 else j for j in row] for row in rt]
+                    script.update(valid=valid, restore=rt, fstage=fstage)
+                    if fstage:      # the scripted first stage is the un-composed table
+                        script["restore"] = restores[rname[:-2]]
                     for start in range(n):
                         for which, mi in (("fix1", 1), ("fix4", 4), ("fix", tb["FIX_MAX_ITER"]), ("chain", tb["CHAIN_MAX_ITER"])):
                             try:
@@ -1105,8 +1127,8 @@ def guard_cases(mods, tier: str, only_all_valid: bool = False, n: int = 3):
                                         got = processing.fix(rule, max_iter=4)(texts[start])
                                     elif which == "fix":
                                         got = processing.fix(rule)(texts[start])
-                                    else:
-                                        got = processing.chain([rule])(texts[start])
+                                    else:       # an iterator: chain must materialise its rules once
+                                        got = processing.chain(r for r in [rule])(texts[start])
                                 g = texts.index(got) if got in texts else 77
                             except Exception as e:  # noqa
                                 g = 88
